@@ -367,7 +367,8 @@ Section Par2Converge.
     { intros i info Hin. apply in_combine_r in Hin. rewrite Hf1', Hix. apply Hpres. exact Hin. }
     (* the listing *)
     set (F := fun q : list N => Nat.leb (length (strip_ext ix ++ [DOT]) + length (ext ix)) (length q)
-                                && starts_with q (strip_ext ix ++ [DOT]) && ends_with q (ext ix)).
+                                && starts_with q (strip_ext ix ++ [DOT]) && ends_with q (ext ix)
+                                && no_slash (skipn (length (strip_ext ix ++ [DOT])) q)).
     assert (HF : forall q, F q = vol_pattern (strip_ext ix) q).
     { intros q. unfold F, vol_pattern. rewrite Eext. reflexivity. }
     assert (Hpaths : paths = sort_paths (filter F (map fst fs))).
